@@ -54,6 +54,10 @@ CHECKS = {
             'Every element is executed on the real integrator / gradient / ISMPath code: one step equals the Taylor polynomial of exp(hA) (algebraic identity), error ratios on halving h lie in a derived interval around 2^(p+1), the central difference is second order, '
             'and every relaxation run to its own convergence ends in the closed-form minima and saddle with the true barrier. Right level: numerical-order clauses are decided to a derived tolerance on a complete grid.', '2 C20',
             'relaxation oracle tied to the documented convergence tolerance max(N^-4,1e-10); quick tier = a covering sub-product of the relaxation menu (asserted), thorough = the full product'),
+    'C08': (FE, 'bounded-exhaustive enumeration of systems x pbc x atom styles x unit styles x float formats x input forms (str / path / stream) for each of the four text formats, plus fault enumeration of the written text: every permutation of atom lines and of velocity lines, every allowed comment / blank-line insertion, every required element deleted in turn',
+            'Every file of the product is written and loaded back by the real code and the loaded system compared with the ORIGINAL system (cell, natoms, types, positions modulo the documented wrap + image flags, every carried property with its shape, pbc for dump files, symbols for POSCAR) to the printed precision with units undone; '
+            'every line permutation / comment / blank-line perturbation must load to the same system, every deletion of a required element must raise the format error. Right level: the quantifier is over inputs and over finitely many textual perturbations of each file, which are enumerated completely.', '2 C08',
+            'perturbations limited to the documented freedoms of the LAMMPS data format; tolerance = half a unit of the last printed digit / unit factor + 1e-12 relative; symbols / natypes of data files not judged (the format does not carry them)'),
     'C09': (MC, 'explicit-state BFS over reset_units histories of the module-global unit table (state = last accepted call) plus bounded-exhaustive enumeration of the unit-expression grammar in every table state',
             'The working-unit table is global mutable state: all histories of depth <= 2 (3 in thorough over a reduced alphabet) of reset_units calls are replayed and the table compared with the table after the last call alone; '
             'every expression tree up to the depth bound x parenthesisations x whitespace renderings is parsed by the real code and compared with direct evaluation, in every configuration. Right level: history-dependent global state + a finite grammar.', '2 C09',
